@@ -144,9 +144,13 @@ pub fn run_file(env: Env<'_>, src: &str, ts: bool, script: bool, opts: Options, 
         seams::yield_point("phase.parsed");
 
         seams::set_phase(Phase::Resolve);
-        for _ in 0..noise.marks_before {
+        // (not every mark gets a context of its own: the resolver, for one, allocates a mark per scope
+        // but a context only for scopes that bind something - so mark and context numbers drift apart)
+        for i in 0..noise.marks_before {
             let m = Mark::new();
-            let _ = SyntaxContext::empty().apply_mark(m);
+            if (noise.seed >> (i % 48)) & 1 == 0 {
+                let _ = SyntaxContext::empty().apply_mark(m);
+            }
         }
         let unresolved_mark = Mark::new();
         let top_level_mark = Mark::new();
